@@ -219,14 +219,12 @@ def dorTail (f : FileObj) (ordOut : Nat) (red : String) (pixels : Option (List N
           (degradeOnRead c vc f.file pixels g
             (fun cells => fltRed vc.valid dtOut red (cells.map (·, Val.num 0 0))) dtOut.defaultSentinel)
 
-/-- first group of weight-file checks (coverage): the `use_weightfile` flag -/
-def dorW1 (f : FileObj) (red : String) (px : List Nat) (wf : Option FileObj) : Except Err Bool :=
+/-- first group of weight-file checks: the `use_weightfile` flag -/
+def dorW1 (f : FileObj) (red : String) (wf : Option FileObj) : Except Err Bool :=
   match wf with
   | some w =>
     if red == "wmean" then
-      if w.covord != f.covord then .error .value else
-      if !(px.all fun k => covered (cfgOf w.covord w.spord) (⟨w.file.cov, w.file.data⟩ : State Val) k)
-      then .error .value else .ok true
+      if w.covord != f.covord then .error .value else .ok true
     else .ok false
   | none => .ok false
 
@@ -239,12 +237,29 @@ def dorW2 (f : FileObj) (useW : Bool) (wf : Option FileObj) : Bool :=
         (match w.sentinel with | .bool _ => true | _ => false))
     | none => false
 
+/-- the block of coverage pixel `k` of the file holds an observed (valid) cell -/
+def observed (f : FileObj) (kind : Kind) (k : Nat) : Bool :=
+  (List.range (cfgOf f.covord f.spord).nfine).any fun j =>
+    kind.valid f.sentinel
+      (rd f.file.data
+        ((blockStart (cfgOf f.covord f.spord) (⟨f.file.cov, f.file.data⟩ : State Val) k).toNat + j)
+        (kind.blank f.sentinel))
+
+/-- third group of weight-file checks (coverage, where the map has observed pixels; after the
+    `fix:` commit): `true` = rejected -/
+def dorW3 (f : FileObj) (kind : Kind) (px : List Nat) (useW : Bool) (wf : Option FileObj) : Bool :=
+  useW && match wf with
+    | some w =>
+      !(px.all fun k =>
+        covered (cfgOf w.covord w.spord) (⟨w.file.cov, w.file.data⟩ : State Val) k || !observed f kind k)
+    | none => false
+
 def dorSpec (f : FileObj) (ordOut : Nat) (red : String) (pixels : Option (List Nat))
     (wf : Option FileObj) : Except Err MapObj :=
   match dorPixels (cfgOf f.covord f.spord) f.file pixels with
   | none => .error .runtime
   | some px =>
-    match dorW1 f red px wf with
+    match dorW1 f red wf with
     | .error e => .error e
     | .ok useW =>
       if ordOut ≥ f.spord then .error .value else
@@ -254,6 +269,7 @@ def dorSpec (f : FileObj) (ordOut : Nat) (red : String) (pixels : Option (List N
       match fileKind f with
       | none => .error .runtime
       | some kind =>
+        if dorW3 f kind px useW wf then .error .value else
         if !(red == "and" || red == "or") && !cellsFitF64 f.file.data then .error .inexact else
         dorTail f ordOut red pixels wf useW kind
 
@@ -276,7 +292,8 @@ theorem apiDegradeOnRead_eq (f : FileObj) (ordOut : Nat) (red : String) (pixels 
         else match fileKind f with
           | none => Except.error Err.runtime
           | some kind =>
-            if (!(red == "and" || red == "or") && !cellsFitF64 f.file.data) = true then Except.error Err.inexact
+            if dorW3 f kind px useW wf = true then Except.error Err.value
+            else if (!(red == "and" || red == "or") && !cellsFitF64 f.file.data) = true then Except.error Err.inexact
             else dorTail f ordOut red pixels wf useW kind) := by
       intro useW
       simp -zeta only [jpW]
@@ -298,7 +315,8 @@ theorem apiDegradeOnRead_eq (f : FileObj) (ordOut : Nat) (red : String) (pixels 
               else match fileKind f with
                 | none => Except.error Err.runtime
                 | some kind =>
-                  if (!(red == "and" || red == "or") && !cellsFitF64 f.file.data) = true then
+                  if dorW3 f kind px useW wf = true then Except.error Err.value
+                  else if (!(red == "and" || red == "or") && !cellsFitF64 f.file.data) = true then
                     Except.error Err.inexact
                   else dorTail f ordOut red pixels wf useW kind) := by
             simp -zeta only [jp3]
@@ -315,37 +333,28 @@ theorem apiDegradeOnRead_eq (f : FileObj) (ordOut : Nat) (red : String) (pixels 
                 dsimp -zeta only
                 show jp5 kind = _
                 simp -zeta only [jp5]
-                extract_lets -underBinder vc mk wprep jp6
-                by_cases h5 : (!(red == "and" || red == "or") && !cellsFitF64 f.file.data) = true
-                · rw [if_pos h5, if_pos h5]; rfl
-                · rw [if_neg h5, if_neg h5]
-                  show jp6 () = _
+                extract_lets -underBinder vc mk jp6
+                have h6 : jp6 () =
+                    (if (!(red == "and" || red == "or") && !cellsFitF64 f.file.data) = true then
+                      Except.error Err.inexact
+                    else dorTail f ordOut red pixels wf useW kind) := by
                   simp -zeta only [jp6]
-                  unfold dorTail
-                  cases kind with
-                  | packed => rfl
-                  | wide n =>
-                    dsimp -zeta only
-                    by_cases h6 : (red != "and" && red != "or") = true
-                    · rw [if_pos h6, if_pos h6]; rfl
-                    · rw [if_neg h6, if_neg h6]; rfl
-                  | recd fs pr =>
-                    dsimp -zeta only
-                    by_cases h6 : (!floatReds.contains red) = true
-                    · rw [if_pos h6, if_pos h6]; rfl
-                    · rw [if_neg h6, if_neg h6]
-                      jp_step
-                      by_cases h7 : (red == "wmean" && !useW) = true
-                      · rw [if_pos h7, if_pos h7]; rfl
-                      · rw [if_neg h7, if_neg h7]
-                        cases wf <;> cases useW <;> rfl
-                  | plain dt0 =>
-                    dsimp -zeta only
-                    extract_lets -underBinder
-                    rename_i dt _ _ _ _ _
-                    by_cases h8 : (dt.isInt && (red == "and" || red == "or")) = true
-                    · rw [if_pos h8, if_pos h8]; rfl
-                    · rw [if_neg h8, if_neg h8]
+                  extract_lets -underBinder wprep jp7
+                  by_cases h5 : (!(red == "and" || red == "or") && !cellsFitF64 f.file.data) = true
+                  · rw [if_pos h5, if_pos h5]; rfl
+                  · rw [if_neg h5, if_neg h5]
+                    show jp7 () = _
+                    simp -zeta only [jp7]
+                    unfold dorTail
+                    cases kind with
+                    | packed => rfl
+                    | wide n =>
+                      dsimp -zeta only
+                      by_cases h6 : (red != "and" && red != "or") = true
+                      · rw [if_pos h6, if_pos h6]; rfl
+                      · rw [if_neg h6, if_neg h6]; rfl
+                    | recd fs pr =>
+                      dsimp -zeta only
                       by_cases h6 : (!floatReds.contains red) = true
                       · rw [if_pos h6, if_pos h6]; rfl
                       · rw [if_neg h6, if_neg h6]
@@ -354,6 +363,32 @@ theorem apiDegradeOnRead_eq (f : FileObj) (ordOut : Nat) (red : String) (pixels 
                         · rw [if_pos h7, if_pos h7]; rfl
                         · rw [if_neg h7, if_neg h7]
                           cases wf <;> cases useW <;> rfl
+                    | plain dt0 =>
+                      dsimp -zeta only
+                      extract_lets -underBinder
+                      rename_i dt _ _ _ _ _
+                      by_cases h8 : (dt.isInt && (red == "and" || red == "or")) = true
+                      · rw [if_pos h8, if_pos h8]; rfl
+                      · rw [if_neg h8, if_neg h8]
+                        by_cases h6 : (!floatReds.contains red) = true
+                        · rw [if_pos h6, if_pos h6]; rfl
+                        · rw [if_neg h6, if_neg h6]
+                          jp_step
+                          by_cases h7 : (red == "wmean" && !useW) = true
+                          · rw [if_pos h7, if_pos h7]; rfl
+                          · rw [if_neg h7, if_neg h7]
+                            cases wf <;> cases useW <;> rfl
+                unfold dorW3
+                cases useW with
+                | false => exact h6
+                | true =>
+                  cases wf with
+                  | none => exact h6
+                  | some w =>
+                    rw [if_pos rfl]
+                    dsimp -zeta only
+                    rw [Bool.true_and]
+                    refine ite_congr rfl (fun _ => rfl) (fun _ => h6)
           unfold dorW2
           cases useW with
           | false => exact h3
@@ -377,11 +412,7 @@ theorem apiDegradeOnRead_eq (f : FileObj) (ordOut : Nat) (red : String) (pixels 
         · rw [if_pos h2, if_pos h2]; rfl
         · rw [if_neg h2, if_neg h2]
           jp_step
-          by_cases h3 : (!px.all fun k => covered (cfgOf w.covord w.spord) { cov := w.file.cov, sp := w.file.data } k) = true
-          · rw [if_pos h3, if_pos h3]; rfl
-          · rw [if_neg h3, if_neg h3]
-            jp_step
-            exact hW true
+          exact hW true
       · rw [if_neg h1, if_neg h1]
         exact hW false
 
@@ -520,15 +551,82 @@ theorem dor_same (h : Inv c vc s) (hg : g ≤ c.shift) (vcOut : VCfg W) (red : L
     rw [c1 k hk, c2 k hk, hr.cov k hk]
 
 
+/-- the weight cell read for a child is the weight map's value there WHETHER OR NOT the weight
+    file covers the coverage pixel: an uncovered pixel is read from the overflow block, which
+    holds what the weight map reads there (its blank) -/
+theorem dorBlockW_get_any {X : Type} [DecidableEq X] {vcX : VCfg X} {ws : State X}
+    (h : Inv c vc s) (hw : Inv c vcX ws) (hg : g ≤ c.shift) (prep : X → X)
+    (red : List (V × X) → W) {K r : Nat} (hK : K < c.ncov) (hc : covered c s K = true)
+    (hr : r < (degCfg c g).nfine) :
+    (dorBlockW c vc s ws vcX.sentinel prep g red K)[r]? =
+      some (red ((List.range (2 ^ g)).map fun j =>
+        (abs c vc s ((K * (degCfg c g).nfine + r) * 2 ^ g + j),
+          prep (abs c vcX ws ((K * (degCfg c g).nfine + r) * 2 ^ g + j))))) := by
+  cases hcw : covered c ws K with
+  | true => exact h.dorBlockW_get hw hg prep red hK hc hcw hr
+  | false =>
+    obtain ⟨b, _, hbs⟩ := h.covered_blk hK hc
+    have hbs' : blockStart c ws K = 0 := by
+      have hlt := (covered_eq_false_iff c ws K).1 hcw
+      rcases hw.2.2.2.1 K hK with h0 | ⟨h1, _⟩
+      · exact h0
+      · omega
+    have e : (dorBlockW c vc s ws vcX.sentinel prep g red K)[r]? =
+        some (red ((List.range (2 ^ g)).map fun j =>
+          (rd s.sp ((blockStart c s K).toNat + r * 2 ^ g + j) vc.sentinel,
+            prep (rd ws.sp ((blockStart c ws K).toNat + r * 2 ^ g + j) vcX.sentinel)))) := by
+      simp [dorBlockW, hr]
+    rw [e]
+    congr 2
+    apply List.map_congr_left
+    intro j hj
+    obtain ⟨e1, e2⟩ := child_split c hg (K := K) hr (List.mem_range.1 hj)
+    have hp : K * c.nfine + (r * 2 ^ g + j) < c.npix := mul_add_lt_mul hK e2
+    have hunc : abs c vcX ws (K * c.nfine + (r * 2 ^ g + j)) = vcX.sentinel :=
+      hw.abs_uncovered hp (by rw [shift_eq_div, (mul_add_div_mod e2).1]; exact hcw)
+    have hovf : rd ws.sp (r * 2 ^ g + j) vcX.sentinel = vcX.sentinel := by
+      unfold rd; rw [hw.2.2.1 _ e2]; rfl
+    rw [e1, abs_block c vc s hbs e2, hunc, hbs, hbs', Int.toNat_natCast, Int.toNat_zero,
+      Nat.zero_add, hovf, Nat.add_assoc]
+
+/-- `Inv.dorW_spec'` without any coverage requirement on the weight file -/
+theorem dorW_spec_any {X : Type} [DecidableEq X] {vcX : VCfg X} {ws : State X}
+    (h : Inv c vc s) (hw : Inv c vcX ws) (hg : g ≤ c.shift)
+    (vcOut : VCfg W) (prep : X → X) (red : List (V × X) → W) (px : List Nat) (hnd : px.Nodup)
+    (hpx : ∀ k ∈ px, k < c.ncov ∧ covered c s k = true) :
+    Inv (degCfg c g) vcOut
+      (dorState (degCfg c g) vcOut.sentinel px (dorBlockW c vc s ws vcX.sentinel prep g red)) ∧
+    (∀ q, q < (degCfg c g).npix →
+      abs (degCfg c g) vcOut
+          (dorState (degCfg c g) vcOut.sentinel px (dorBlockW c vc s ws vcX.sentinel prep g red)) q
+        = if (q >>> (c.shift - g)) ∈ px
+          then red ((List.range (2 ^ g)).map fun j =>
+                 (abs c vc s (q * 2 ^ g + j), prep (abs c vcX ws (q * 2 ^ g + j))))
+          else vcOut.sentinel) := by
+  have hlt : ∀ k ∈ px, k < (degCfg c g).ncov := fun k hk => (hpx k hk).1
+  have hlen := dorBlockW_length c vc s ws vcX.sentinel prep g red
+  refine ⟨inv_dorState _ vcOut px _ hnd hlt hlen, ?_⟩
+  intro q hq
+  split
+  · rename_i hm
+    obtain ⟨K, r, hK, hr, rfl, hsh⟩ := pix_decomp (degCfg c g) hq
+    have hsh' : (K * (degCfg c g).nfine + r) >>> (c.shift - g) = K := hsh
+    rw [hsh'] at hm
+    rw [dorState_abs_mem _ vcOut px _ hnd hlen hK hr hm,
+      dorBlockW_get_any h hw hg prep red hK (hpx K hm).2 hr]
+    rfl
+  · rename_i hm
+    exact dorState_abs_not_mem _ vcOut px _ hnd hlt hlen hq hm
+
 /-- weighted: the state degrade-on-read assembles over `px` (weights read from the weight file
     through its own index, prepared by `prep`) is content-equal to the in-memory weighted degrade
     of the state read over `px` with the gathered weight array `wv` of a weight map `wr` that has
-    the same valid pixels -/
+    the same valid pixels; NOTHING is asked of the coverage of the weight file -/
 theorem dorW_same {X : Type} [DecidableEq X] {vcX : VCfg X} {ws wr : State X}
     (h : Inv c vc s) (hw : Inv c vcX ws) (hg : g ≤ c.shift) (vcOut : VCfg W) (prep : X → X)
     (zero : X) (red : List (V × X) → W)
     {px : List Nat} (hnd : px.Nodup)
-    (hpx : ∀ k ∈ px, k < c.ncov ∧ covered c s k = true ∧ covered c ws k = true)
+    (hpx : ∀ k ∈ px, k < c.ncov ∧ covered c s k = true)
     (hr : ReadOf c vc s r px)
     (hwa : ∀ p, p < c.npix → (p >>> c.shift) ∈ px → abs c vcX wr p = abs c vcX ws p)
     (hv : ∀ p, p < c.npix → vc.valid (abs c vc r p) = vcX.valid (abs c vcX wr p))
@@ -540,7 +638,7 @@ theorem dorW_same {X : Type} [DecidableEq X] {vcX : VCfg X} {ws wr : State X}
     C10.Same (degCfg c g) vcOut
       (dorState (degCfg c g) vcOut.sentinel px (dorBlockW c vc s ws vcX.sentinel prep g red))
       (degradeMapW c vc r g wv zero red vcOut.sentinel) := by
-  obtain ⟨i1, a1⟩ := h.dorW_spec' hw hg vcOut prep red px hnd hpx
+  obtain ⟨i1, a1⟩ := dorW_spec_any h hw hg vcOut prep red px hnd hpx
   obtain ⟨i2, a2⟩ := hr.inv.degradeW_spec' hg vcOut wv zero _ red hwv
   have hlen := dorBlockW_length c vc s ws vcX.sentinel prep g red
   refine ⟨i1, i2, ?_, ?_⟩
@@ -1032,7 +1130,6 @@ theorem tail_weighted {f w : FileObj} (hf : f.WF) {kind : Kind} (hk : fileKind f
     (hpx : dorPixels (fCfg f) f.file pixels = some px) {rst : State Val}
     (hro : ReadOf (fCfg f) (fVC f kind) (readFull f.file) rst px) (hnd : px.Nodup)
     (hcov : ∀ k ∈ px, k < (fCfg f).ncov ∧ covered (fCfg f) (readFull f.file) k = true)
-    (hcw : ∀ k ∈ px, covered (fCfg f) (readFull w.file) k = true)
     {wst : State Val}
     (hwa : ∀ p, p < (fCfg f).npix → (p >>> (fCfg f).shift) ∈ px →
       abs (fCfg f) (fVC w (.plain (.flt wb))) wst p
@@ -1054,9 +1151,6 @@ theorem tail_weighted {f w : FileObj} (hf : f.WF) {kind : Kind} (hk : fileKind f
   have hg : 2 * (f.spord - ordOut) ≤ (fCfg f).shift := by
     show _ ≤ 2 * (f.spord - f.covord); omega
   have hhi' : ordOut ≤ f.spord := by omega
-  have hpx3 : ∀ k ∈ px, k < (fCfg f).ncov ∧ covered (fCfg f) (readFull f.file) k = true ∧
-      covered (fCfg f) (readFull w.file) k = true :=
-    fun k hk => ⟨(hcov k hk).1, (hcov k hk).2, hcw k hk⟩
   have key : ∀ (vcOut : VCfg Val) (red : List (Val × Val) → Val),
       C10.Same (degCfg (fCfg f) (2 * (f.spord - ordOut))) vcOut
         (dorState (degCfg (fCfg f) (2 * (f.spord - ordOut))) vcOut.sentinel px
@@ -1065,7 +1159,7 @@ theorem tail_weighted {f w : FileObj} (hf : f.WF) {kind : Kind} (hk : fileKind f
         (degradeMapW (fCfg f) (fVC f kind) rst (2 * (f.spord - ordOut)) arr (.num 0 0) red
           vcOut.sentinel) :=
     fun vcOut red => dorW_same (vcX := fVC w (.plain (.flt wb))) hinv hinvw hg vcOut
-      (wprep w.sentinel) (.num 0 0) red hnd hpx3 hro hwa hv
+      (wprep w.sentinel) (.num 0 0) red hnd hcov hro hwa hv
       (fun x hx => wprep_valid hx) (fun x hx => wprep_invalid hx) arr harr
   unfold coreRest
   apply agreeS_ite_right
@@ -1173,26 +1267,25 @@ theorem checks_of_wkind {w : FileObj} {b : Nat} (hk : fileKind w = some (.plain 
 theorem dorSpec_weighted_eval {f w : FileObj} {ordOut : Nat} {pixels : Option (List Nat)}
     {px : List Nat} (hpx : dorPixels (fCfg f) f.file pixels = some px)
     (hco : w.covord = f.covord)
-    (hcw : (px.all fun k => covered (cfgOf w.covord w.spord) (⟨w.file.cov, w.file.data⟩ : State Val) k) = true)
     (hlo : f.covord ≤ ordOut) (hhi : ordOut < f.spord) (hb : f.bitpack = false)
-    (hw2 : dorW2 f true (some w) = false) {kind : Kind} (hk : fileKind f = some kind) :
+    (hw2 : dorW2 f true (some w) = false) {kind : Kind} (hk : fileKind f = some kind)
+    (hw3 : dorW3 f kind px true (some w) = false) :
     dorSpec f ordOut "wmean" pixels (some w) =
       if !("wmean" == "and" || "wmean" == "or") && !cellsFitF64 f.file.data then .error .inexact
       else dorTail f ordOut "wmean" pixels (some w) true kind := by
   unfold dorSpec
   have hpx' : dorPixels (cfgOf f.covord f.spord) f.file pixels = some px := hpx
   rw [hpx']
-  simp only [dorW1, beq_self_eq_true, if_true, hco, bne_self_eq_false, Bool.false_eq_true, if_false]
-  rw [hco] at hcw
-  simp only [hcw, Bool.not_true, Bool.false_eq_true, if_false, hw2, hb, hk]
+  simp only [dorW1, beq_self_eq_true, if_true, hco, bne_self_eq_false, Bool.false_eq_true, if_false,
+    hw2, hb, hk, hw3]
   rw [if_neg (show ¬ ordOut ≥ f.spord by omega), if_neg (show ¬ ordOut < f.covord by omega)]
 
 theorem dorSpec_weighted_inv {f w : FileObj} {ordOut : Nat} {pixels : Option (List Nat)} {a : MapObj}
     (h : dorSpec f ordOut "wmean" pixels (some w) = .ok a) :
     ∃ px kind, dorPixels (fCfg f) f.file pixels = some px ∧ w.covord = f.covord ∧
-      (px.all fun k => covered (cfgOf w.covord w.spord) (⟨w.file.cov, w.file.data⟩ : State Val) k) = true ∧
       f.covord ≤ ordOut ∧ ordOut < f.spord ∧ f.bitpack = false ∧ dorW2 f true (some w) = false ∧
-      fileKind f = some kind ∧ dorTail f ordOut "wmean" pixels (some w) true kind = .ok a := by
+      fileKind f = some kind ∧ dorW3 f kind px true (some w) = false ∧
+      dorTail f ordOut "wmean" pixels (some w) true kind = .ok a := by
   unfold dorSpec at h
   split at h
   · cases h
@@ -1201,10 +1294,9 @@ theorem dorSpec_weighted_inv {f w : FileObj} {ordOut : Nat} {pixels : Option (Li
     by_cases hco : (w.covord != f.covord) = true
     · simp [hco] at h
     · simp only [hco, Bool.false_eq_true, if_false] at h
-      by_cases hcw : (!(px.all fun k => covered (cfgOf w.covord w.spord) (⟨w.file.cov, w.file.data⟩ : State Val) k)) = true
-      · simp [hcw] at h
-      · simp only [hcw, Bool.false_eq_true, if_false] at h
-        split at h
+      split at h
+      · cases h
+      · split at h
         · cases h
         · split at h
           · cases h
@@ -1216,9 +1308,9 @@ theorem dorSpec_weighted_inv {f w : FileObj} {ordOut : Nat} {pixels : Option (Li
                 · cases h
                 · split at h
                   · cases h
-                  · rename_i h1 hb hw2 h4 _ kind hk _
-                    exact ⟨px, kind, hpx, by simpa using hco, by simpa using hcw, by omega, by omega,
-                      by simpa using hb, by simpa using hw2, hk, h⟩
+                  · rename_i h1 hb hw2 h4 _ kind hk hw3 _
+                    exact ⟨px, kind, hpx, by simpa using hco, by omega, by omega,
+                      by simpa using hb, by simpa using hw2, hk, by simpa using hw3, h⟩
 
 theorem apiReadThenDegrade_some (f w : FileObj) (ordOut : Nat) (red : String)
     (pixels : Option (List Nat)) :
@@ -1305,10 +1397,9 @@ theorem wread_facts {w : FileObj} {wk : Kind} (hwk : fileKind w = some wk)
 /-- the weights read with the same pixel request hold the file's weights on every processed
     coverage pixel -/
 theorem wabs_agree {f w : FileObj} {wk : Kind} (hcfg : fCfg w = fCfg f)
+    (hinvw : Inv (fCfg f) (fVC w wk) (readFull w.file))
     {pixels : Option (List Nat)} {px : List Nat}
-    (hfull : pixels = none → True)
     (hpart : ∀ l, pixels = some l → l.Nodup ∧ px = partialPixels (fCfg f) f.file l)
-    (hcw : ∀ k ∈ px, covered (fCfg f) (readFull w.file) k = true)
     {wst : State Val} (hw1 : pixels = none → wst = readFull w.file)
     (hw2 : ∀ l, pixels = some l → l.Nodup ∧
         wst = partialState (fCfg w) (fVC w wk) (readFull w.file) (partialPixels (fCfg w) w.file l)) :
@@ -1321,12 +1412,26 @@ theorem wabs_agree {f w : FileObj} {wk : Kind} (hcfg : fCfg w = fCfg f)
     obtain ⟨hnd, hwst⟩ := hw2 l rfl
     obtain ⟨_, epx⟩ := hpart l rfl
     rw [hwst, hcfg]
-    have hc := hcw _ hm
-    refine partialState_abs_mem (fCfg f) (fVC w wk) (readFull w.file) _
-      (nodup_partialPixels _ (readFull w.file) l hnd) p hp ?_ hc
+    have hpnd := nodup_partialPixels (fCfg f) (readFull w.file) l hnd
     rw [epx] at hm
-    have := (mem_partialPixels (fCfg f) (readFull f.file) l _).1 hm
-    exact (mem_partialPixels (fCfg f) (readFull w.file) l _).2 ⟨this.1, this.2.1, hc⟩
+    have hml := (mem_partialPixels (fCfg f) (readFull f.file) l _).1 hm
+    cases hc : covered (fCfg f) (readFull w.file) (p >>> (fCfg f).shift) with
+    | true =>
+      exact partialState_abs_mem (fCfg f) (fVC w wk) (readFull w.file) _ hpnd p hp
+        ((mem_partialPixels (fCfg f) (readFull w.file) l _).2 ⟨hml.1, hml.2.1, hc⟩) hc
+    | false =>
+      have hnm : (p >>> (fCfg f).shift) ∉ partialPixels (fCfg f) (writeFits (readFull w.file)) l := by
+        intro hmem
+        have := ((mem_partialPixels (fCfg f) (readFull w.file) l _).1 hmem).2.2
+        rw [hc] at this; cases this
+      have hinvp := inv_partialState (fCfg f) (fVC w wk) (readFull w.file) _ hinvw hpnd
+        (fun k hk => ((mem_partialPixels (fCfg f) (readFull w.file) l k).1 hk).2.1)
+      have hcp : covered (fCfg f) (partialState (fCfg f) (fVC w wk) (readFull w.file)
+          (partialPixels (fCfg f) (writeFits (readFull w.file)) l)) (p >>> (fCfg f).shift) = false := by
+        rw [partialState_covered _ _ _ _ hpnd _ (covpix_lt (fCfg f) p hp)]
+        exact decide_eq_false hnm
+      rw [hinvw.abs_uncovered hp hc]
+      exact hinvp.abs_uncovered hp hcp
 
 
 theorem blankInvalid_of_fileKindOk {f : FileObj} (hfk : f.KindOk) {kind : Kind}
@@ -1344,7 +1449,6 @@ theorem weighted_bridge {f w : FileObj} (hf : f.WF) (hfk : f.KindOk) (hw : w.WF)
     (hro : ReadOf (fCfg f) (fVC f kind) (readFull f.file) rst px) (hnd : px.Nodup)
     (hcov : ∀ k ∈ px, k < (fCfg f).ncov ∧ covered (fCfg f) (readFull f.file) k = true)
     (hpart : ∀ l, pixels = some l → l.Nodup ∧ px = partialPixels (fCfg f) f.file l)
-    (hcw : ∀ k ∈ px, covered (fCfg f) (readFull w.file) k = true)
     {wm : MapObj} (hwr : apiRead w pixels = .ok wm)
     (hv : ∀ p, p < (fCfg f).npix → (fVC f kind).valid (abs (fCfg f) (fVC f kind) rst p)
       = wm.vc.valid (abs (fCfg f) wm.vc wm.st p))
@@ -1360,8 +1464,9 @@ theorem weighted_bridge {f w : FileObj} (hf : f.WF) (hfk : f.KindOk) (hw : w.WF)
     (readMap w (.plain (.flt wb)) wst).abs (Val.num 0 0)
   rw [harr] at hwv
   cases hwv
-  refine tail_weighted hf hk hw hwk hco hso hlo hhi hpx hro hnd hcov hcw
-    (wabs_agree hcfg (fun _ => trivial) hpart hcw hw1 hw2) hv ?_ hF47
+  have hinvw : Inv (fCfg f) (fVC w (.plain (.flt wb))) (readFull w.file) := hcfg ▸ hw.2 _ hwk
+  refine tail_weighted hf hk hw hwk hco hso hlo hhi hpx hro hnd hcov
+    (wabs_agree hcfg hinvw hpart hw1 hw2) hv ?_ hF47
   intro p hp hc
   rw [hspec p hp hc]
   show (if _ then abs (fCfg w) _ wst p else _) = _
@@ -1403,12 +1508,77 @@ theorem degrade_weighted_inv {r wm : MapObj} {ordOut : Nat} {b : MapObj}
       obtain ⟨wb, al, bl, arr, h1, h2, h3, h4, h5, h6, h7, rfl⟩ := coreWeights_wmean_inv hcw
       exact ⟨wb, al, bl, arr, h1, h2, h3, h4, h5, h6, h7, h⟩
 
-theorem all_covered_iff {w f : FileObj} (hco : w.covord = f.covord) (hso : w.spord = f.spord)
-    (px : List Nat) :
-    (px.all fun k => covered (cfgOf w.covord w.spord) (⟨w.file.cov, w.file.data⟩ : State Val) k) = true
-      ↔ ∀ k ∈ px, covered (fCfg f) (readFull w.file) k = true := by
-  rw [List.all_eq_true, hco, hso]
+theorem dorW3_false_iff {w f : FileObj} (hco : w.covord = f.covord) (hso : w.spord = f.spord)
+    (kind : Kind) (px : List Nat) :
+    dorW3 f kind px true (some w) = false
+      ↔ ∀ k ∈ px, covered (fCfg f) (readFull w.file) k = true ∨ observed f kind k = false := by
+  unfold dorW3
+  simp only [Bool.true_and, Bool.not_eq_false', List.all_eq_true, Bool.or_eq_true,
+    Bool.not_eq_true', hco, hso]
   rfl
+
+/-- an observed block of the file holds a valid pixel of the map -/
+theorem observed_valid {f : FileObj} {kind : Kind}
+    (hinv : Inv (fCfg f) (fVC f kind) (readFull f.file)) {k : Nat} (hk : k < (fCfg f).ncov)
+    (hc : covered (fCfg f) (readFull f.file) k = true) (ho : observed f kind k = true) :
+    ∃ j, j < (fCfg f).nfine ∧
+      (fVC f kind).valid (abs (fCfg f) (fVC f kind) (readFull f.file) (k * (fCfg f).nfine + j)) = true := by
+  unfold observed at ho
+  obtain ⟨j, hj, hval⟩ := List.any_eq_true.1 ho
+  have hj' : j < (fCfg f).nfine := List.mem_range.1 hj
+  obtain ⟨b, _, hbs⟩ := hinv.covered_blk hk hc
+  refine ⟨j, hj', ?_⟩
+  rw [abs_block (fCfg f) (fVC f kind) (readFull f.file) hbs hj']
+  have hbs' : blockStart (cfgOf f.covord f.spord) (⟨f.file.cov, f.file.data⟩ : State Val) k
+      = (((b + 1) * (fCfg f).nfine : Nat) : Int) := hbs
+  rw [hbs', Int.toNat_natCast] at hval
+  exact hval
+
+/-- equal validity of the map read and the weights read implies the on-read coverage check -/
+theorem dorW3_of_valid_eq {f : FileObj} {kind : Kind}
+    (hinv : Inv (fCfg f) (fVC f kind) (readFull f.file)) {px : List Nat}
+    (hcov : ∀ k ∈ px, k < (fCfg f).ncov ∧ covered (fCfg f) (readFull f.file) k = true)
+    {rst : State Val} (hro : ReadOf (fCfg f) (fVC f kind) (readFull f.file) rst px)
+    {vcW : VCfg Val} {wst ws : State Val} (hinvw : Inv (fCfg f) vcW wst)
+    (hbw : vcW.valid vcW.sentinel = false)
+    (hsub : ∀ k, k < (fCfg f).ncov → covered (fCfg f) wst k = true → covered (fCfg f) ws k = true)
+    (hv : ∀ p, p < (fCfg f).npix → (fVC f kind).valid (abs (fCfg f) (fVC f kind) rst p)
+      = vcW.valid (abs (fCfg f) vcW wst p)) :
+    ∀ k ∈ px, covered (fCfg f) ws k = true ∨ observed f kind k = false := by
+  intro k hk
+  cases ho : observed f kind k with
+  | false => exact .inr rfl
+  | true =>
+    left
+    obtain ⟨hlt, hc⟩ := hcov k hk
+    obtain ⟨j, hj, hval⟩ := observed_valid hinv hlt hc ho
+    have hp : k * (fCfg f).nfine + j < (fCfg f).npix := mul_add_lt_mul hlt hj
+    have hsh : (k * (fCfg f).nfine + j) >>> (fCfg f).shift = k := by
+      rw [shift_eq_div, (mul_add_div_mod hj).1]
+    have h1 := hv _ hp
+    rw [hro.abs _ hp (by rw [hsh]; exact hk), hval] at h1
+    have := hinvw.covered_of_valid hbw hp h1.symm
+    rw [hsh] at this
+    exact hsub k hlt this
+
+/-- the weights read (fully or with the pixel request) cover no more than the weight file -/
+theorem wst_cov_sub {w : FileObj} {wk : Kind} {pixels : Option (List Nat)} {wst : State Val}
+    (hw1 : pixels = none → wst = readFull w.file)
+    (hw2 : ∀ l, pixels = some l → l.Nodup ∧
+        wst = partialState (fCfg w) (fVC w wk) (readFull w.file) (partialPixels (fCfg w) w.file l)) :
+    ∀ k, k < (fCfg w).ncov → covered (fCfg w) wst k = true →
+      covered (fCfg w) (readFull w.file) k = true := by
+  intro k hk hc
+  cases pixels with
+  | none => rw [hw1 rfl] at hc; exact hc
+  | some l =>
+    obtain ⟨hnd, hwst⟩ := hw2 l rfl
+    rw [hwst] at hc
+    have hc' := hc
+    rw [show partialPixels (fCfg w) w.file l = partialPixels (fCfg w) (writeFits (readFull w.file)) l
+      from rfl, partialState_covered _ _ _ _ (nodup_partialPixels _ (readFull w.file) l hnd) k hk] at hc'
+    have hm := of_decide_eq_true hc'
+    exact ((mem_partialPixels (fCfg w) (readFull w.file) l k).1 hm).2.2
 
 /-- **weighted, results**: when both paths succeed the two maps are content-equal, except for the
     float32-map / float64-weights case excluded by `hF47` -/
@@ -1419,7 +1589,7 @@ theorem dor_weighted_same {f w : FileObj} (hf : f.WF) (hfk : f.KindOk) (hw : w.W
     (hF47 : ∀ dt0, fileKind f = some (.plain dt0) → fileKind w = some (.plain (.flt 64)) →
       auxDT dt0 = .flt 64) : a.SameAs b := by
   rw [apiDegradeOnRead_eq] at hL
-  obtain ⟨px, kind, hpx, hco, hcw, hlo, hhi, hb, hw2, hk, htail⟩ := dorSpec_weighted_inv hL
+  obtain ⟨px, kind, hpx, hco, hlo, hhi, hb, hw2, hk, _, htail⟩ := dorSpec_weighted_inv hL
   obtain ⟨rst, hread, hro, hnd, hcov, _, hpart⟩ := read_facts hf hk hpx
   obtain ⟨r, wm, hr1, hwr, hdeg⟩ := rtd_weighted_inv hR
   rw [hread] at hr1
@@ -1431,7 +1601,6 @@ theorem dor_weighted_same {f w : FileObj} (hf : f.WF) (hfk : f.KindOk) (hw : w.W
   subst hwk'
   have hso'' : w.spord = f.spord := by rw [← hso']; exact hso
   have hcfg : fCfg w = fCfg f := by unfold fCfg; rw [hco, hso'']
-  have hcw' := (all_covered_iff hco hso'' px).1 hcw
   have hwmwf : wm.WF := WF.apiRead hw hwr
   obtain ⟨wst, hwm, _, _⟩ := wread_facts hwk hwr
   have hbi := blankInvalid_of_fileKindOk hfk hk
@@ -1445,7 +1614,7 @@ theorem dor_weighted_same {f w : FileObj} (hf : f.WF) (hfk : f.KindOk) (hw : w.W
     rw [← hal, hwm]; show _ = validPixels (fCfg w) _ _; rw [hcfg]
   have hv := valid_eq_of_sorted_eq hro.inv hbi hinvw hbw hal' hbl hs
   have := weighted_bridge hf hfk hw hk hwk hco hso'' hlo hhi hpx hro hnd hcov
-    (fun l hl => ⟨(hpart l hl).1, (hpart l hl).2.1⟩) hcw' hwr hv harr
+    (fun l hl => ⟨(hpart l hl).1, (hpart l hl).2.1⟩) hwr hv harr
     (fun dt0 hd hwb => hF47 dt0 (hd ▸ hk) (hwb ▸ hwk))
   rw [htail, hcore] at this
   exact this
@@ -1512,12 +1681,12 @@ theorem dorPixels_some_ne_nil {V : Type} {c : Cfg} {f : FitsFile V} {l px : List
       rw [hnil] at hne
       exact hne rfl
 
-/-- the weight file is readable with the same pixel request once it passed the on-read checks -/
-theorem wread_ok {f w : FileObj} {wb : Nat} (hwk : fileKind w = some (.plain (.flt wb)))
-    (hcfg : fCfg w = fCfg f) {pixels : Option (List Nat)} {px : List Nat}
-    (hpx : dorPixels (fCfg f) f.file pixels = some px)
-    (hpart : ∀ l, pixels = some l → l.Nodup ∧ px = partialPixels (fCfg f) f.file l)
-    (hcw : ∀ k ∈ px, covered (fCfg f) (readFull w.file) k = true) :
+/-- the weight file is readable with the same pixel request once it passed the on-read type
+    checks, provided the request touches its coverage (H0) -/
+theorem wread_ok {w : FileObj} {wb : Nat} (hwk : fileKind w = some (.plain (.flt wb)))
+    {pixels : Option (List Nat)} (hnd : ∀ l, pixels = some l → l.Nodup)
+    (H0 : ∀ l, pixels = some l →
+      ∃ k ∈ l, k < (fCfg w).ncov ∧ covered (fCfg w) (readFull w.file) k = true) :
     ∃ wst, apiRead w pixels = .ok (readMap w (.plain (.flt wb)) wst) := by
   rw [apiRead_eq]
   unfold readSpec
@@ -1525,21 +1694,15 @@ theorem wread_ok {f w : FileObj} {wb : Nat} (hwk : fileKind w = some (.plain (.f
   cases pixels with
   | none => exact ⟨_, rfl⟩
   | some l =>
-    obtain ⟨hnd, epx⟩ := hpart l rfl
-    have hne := dorPixels_some_ne_nil hpx
     have e : readPartial (cfgOf w.covord w.spord)
         ⟨(Kind.plain (.flt wb)).blank w.sentinel, (Kind.plain (.flt wb)).valid w.sentinel⟩ w.file l
         = readPartial (fCfg w) (fVC w (.plain (.flt wb))) (writeFits (readFull w.file)) l := rfl
     simp only [e, readPartial_writeFits]
-    rw [if_neg (by rw [eraseDups_length_lt_iff]; exact fun h => h hnd)]
+    rw [if_neg (by rw [eraseDups_length_lt_iff]; exact fun h => h (hnd l rfl))]
     have hne' : ¬ (partialPixels (fCfg w) (writeFits (readFull w.file)) l).isEmpty = true := by
-      obtain ⟨k, hk⟩ := List.exists_mem_of_ne_nil px hne
-      have hc := hcw k hk
-      rw [epx] at hk
-      have := (mem_partialPixels (fCfg f) (readFull f.file) l k).1 hk
-      have hm : k ∈ partialPixels (fCfg w) (writeFits (readFull w.file)) l := by
-        rw [hcfg]
-        exact (mem_partialPixels (fCfg f) (readFull w.file) l k).2 ⟨this.1, this.2.1, hc⟩
+      obtain ⟨k, hk, hlt, hc⟩ := H0 l rfl
+      have hm : k ∈ partialPixels (fCfg w) (writeFits (readFull w.file)) l :=
+        (mem_partialPixels (fCfg w) (readFull w.file) l k).2 ⟨hk, hlt, hc⟩
       intro hemp
       rw [List.isEmpty_iff] at hemp
       rw [hemp] at hm
@@ -1604,14 +1767,16 @@ theorem bitpack_false_of_not_packed {f : FileObj} {kind : Kind} (hk : fileKind f
     cases hk
     cases hnp
 
-/-- **weighted, rejection**: for a weight file that covers every coverage pixel processed (`H1`,
-    the on-read check) and whose map read with the same request has the same valid pixels (`H2`,
-    the in-memory check), the two paths are rejected together and agree otherwise -/
+/-- **weighted, rejection**: when the map read and the weight map read (same request) have the
+    same valid pixels (`H2`, the in-memory check) the two paths are rejected together and agree
+    otherwise — the on-read coverage check (weight coverage wherever the map has an observed
+    pixel) FOLLOWS from `H2`.  `H0`: a pixel request must touch the coverage of the weight file
+    (else the reference path cannot even read the weights: `RuntimeError`). -/
 theorem dor_weighted {f w : FileObj} (hf : f.WF) (hfk : f.KindOk) (hw : w.WF)
     (hbp : w.bitpack = true → w.arrDT = "u1")
     {ordOut : Nat} (hlo : f.covord ≤ ordOut) (hhi : ordOut < f.spord) (pixels : Option (List Nat))
-    (H1 : ∀ px, dorPixels (fCfg f) f.file pixels = some px → w.covord = f.covord →
-      w.spord = f.spord → ∀ k ∈ px, covered (fCfg f) (readFull w.file) k = true)
+    (H0 : ∀ l, pixels = some l →
+      ∃ k ∈ l, k < (fCfg w).ncov ∧ covered (fCfg w) (readFull w.file) k = true)
     (H2 : ∀ r wm, apiRead f pixels = .ok r → apiRead w pixels = .ok wm → wm.covord = r.covord →
       wm.spord = r.spord → ∀ p, p < r.npix → r.vc.valid (r.abs p) = wm.vc.valid (wm.abs p))
     (hF47 : ∀ dt0, fileKind f = some (.plain dt0) → fileKind w = some (.plain (.flt 64)) →
@@ -1637,27 +1802,34 @@ theorem dor_weighted {f w : FileObj} (hf : f.WF) (hfk : f.KindOk) (hw : w.WF)
       have hco' : w.covord = f.covord := by rw [← hw_co]; exact hco
       have hso' : w.spord = f.spord := by rw [← hw_so]; exact hso
       have hcfg : fCfg w = fCfg f := by unfold fCfg; rw [hco', hso']
-      have hcw := H1 px hpx hco' hso'
       have hb := bitpack_false_of_not_packed hk hnp
       have hw2 : dorW2 f true (some w) = false :=
         (dorW2_false_iff f w).2 ⟨hso', checks_of_wkind hwk⟩
-      rw [apiDegradeOnRead_eq,
-        dorSpec_weighted_eval hpx hco' ((all_covered_iff hco' hso' px).2 hcw) hlo hhi hb hw2 hk]
+      obtain ⟨wst, hwm, hws1, hws2⟩ := wread_facts hwk hwr
+      have hbi := blankInvalid_of_fileKindOk hfk hk
+      have hinvw : Inv (fCfg f) wm.vc wm.st := by
+        have := (WF.apiRead hw hwr).2
+        rw [hwm] at this ⊢
+        exact hcfg ▸ this
+      have hbw : wm.vc.valid wm.vc.sentinel = false := by
+        rw [hwm]; exact Kind.valid_blank_plain (.flt wb) w.sentinel
+      have hal' : validPixels (fCfg f) wm.vc wm.st = some al := by
+        rw [← hal, hwm]; show _ = validPixels (fCfg w) _ _; rw [hcfg]
+      have hv := valid_eq_of_sorted_eq hro.inv hbi hinvw hbw hal' hbl hs
+      have hsub : ∀ k, k < (fCfg f).ncov → covered (fCfg f) wm.st k = true →
+          covered (fCfg f) (readFull w.file) k = true := by
+        have := wst_cov_sub hws1 hws2
+        rw [hcfg] at this
+        rw [hwm]
+        exact this
+      have hw3 : dorW3 f kind px true (some w) = false :=
+        (dorW3_false_iff hco' hso' kind px).2
+          (dorW3_of_valid_eq (hf.2 kind hk) hcov hro hinvw hbw hsub hv)
+      rw [apiDegradeOnRead_eq, dorSpec_weighted_eval hpx hco' hlo hhi hb hw2 hk hw3]
       split
       · exact agree_inexact_left _
-      · obtain ⟨wst, hwm, _, _⟩ := wread_facts hwk hwr
-        have hbi := blankInvalid_of_fileKindOk hfk hk
-        have hinvw : Inv (fCfg f) wm.vc wm.st := by
-          have := (WF.apiRead hw hwr).2
-          rw [hwm] at this ⊢
-          exact hcfg ▸ this
-        have hbw : wm.vc.valid wm.vc.sentinel = false := by
-          rw [hwm]; exact Kind.valid_blank_plain (.flt wb) w.sentinel
-        have hal' : validPixels (fCfg f) wm.vc wm.st = some al := by
-          rw [← hal, hwm]; show _ = validPixels (fCfg w) _ _; rw [hcfg]
-        have hv := valid_eq_of_sorted_eq hro.inv hbi hinvw hbw hal' hbl hs
-        have := weighted_bridge hf hfk hw hk hwk hco' hso' hlo hhi hpx hro hnd hcov
-          (fun l hl => ⟨(hpart l hl).1, (hpart l hl).2.1⟩) hcw hwr hv harr
+      · have := weighted_bridge hf hfk hw hk hwk hco' hso' hlo hhi hpx hro hnd hcov
+          (fun l hl => ⟨(hpart l hl).1, (hpart l hl).2.1⟩) hwr hv harr
           (fun dt0 hd hwb => hF47 dt0 (hd ▸ hk) (hwb ▸ hwk))
         rw [hcore] at this
         exact AgreeS.agree this
@@ -1670,14 +1842,12 @@ theorem dor_weighted {f w : FileObj} (hf : f.WF) (hfk : f.KindOk) (hw : w.WF)
         -- the on-read path succeeded: evaluate the reference path, which cannot be rejected
         exfalso
         rw [apiDegradeOnRead_eq] at hL
-        obtain ⟨px, kind, hpx, hco, hcw, _, _, hb, hw2, hk, htail⟩ := dorSpec_weighted_inv hL
+        obtain ⟨px, kind, hpx, hco, _, _, hb, hw2, hk, _, htail⟩ := dorSpec_weighted_inv hL
         obtain ⟨rst, hread, hro, hnd, hcov, _, hpart⟩ := read_facts hf hk hpx
         obtain ⟨hso, h2, h3, ⟨wb, h4⟩, h5⟩ := (dorW2_false_iff f w).1 hw2
         have hwk := wkind_of_checks hbp h2 h3 h4 h5
         have hcfg : fCfg w = fCfg f := by unfold fCfg; rw [hco, hso]
-        have hcw' := (all_covered_iff hco hso px).1 hcw
-        obtain ⟨wst, hwr⟩ := wread_ok hwk hcfg hpx
-          (fun l hl => ⟨(hpart l hl).1, (hpart l hl).2.1⟩) hcw'
+        obtain ⟨wst, hwr⟩ := wread_ok hwk (fun l hl => (hpart l hl).1) H0
         have hv : ∀ p, p < (fCfg f).npix → (fVC f kind).valid (abs (fCfg f) (fVC f kind) rst p)
             = (fVC w (.plain (.flt wb))).valid (abs (fCfg f) (fVC w (.plain (.flt wb))) wst p) := by
           intro p hp
@@ -1692,7 +1862,7 @@ theorem dor_weighted {f w : FileObj} (hf : f.WF) (hfk : f.KindOk) (hw : w.WF)
         obtain ⟨arr, harr, heval⟩ := rtd_weighted_eval hfk hw hk
           (not_packed_of_bitpack_false hk hb) hlo hhi hread hro.inv hwr hco hso hv
         have := weighted_bridge hf hfk hw hk hwk hco hso hlo hhi hpx hro hnd hcov
-          (fun l hl => ⟨(hpart l hl).1, (hpart l hl).2.1⟩) hcw' hwr hv harr
+          (fun l hl => ⟨(hpart l hl).1, (hpart l hl).2.1⟩) hwr hv harr
           (fun dt0 hd hwb => hF47 dt0 (hd ▸ hk) (hwb ▸ hwk))
         rw [htail, ← heval, hR] at this
         unfold AgreeS at this
@@ -1713,7 +1883,8 @@ theorem dor_ignored_weights (f w : FileObj) (ordOut : Nat) {red : String}
   cases dorPixels (cfgOf f.covord f.spord) f.file pixels with
   | none => rfl
   | some px =>
-    simp only [dorW1, hred, Bool.false_eq_true, if_false, dorW2, Bool.false_and, dorTail_useW_false]
+    simp only [dorW1, hred, Bool.false_eq_true, if_false, dorW2, dorW3, Bool.false_and,
+      dorTail_useW_false]
 
 theorem coreRest_ignored (m wm : MapObj) (ordOut : Nat) {red : String}
     (hred : (red == "wmean") = false) :
@@ -1799,6 +1970,7 @@ theorem dor_wmean_no_weights (f : FileObj) {ordOut : Nat} (hlo : f.covord ≤ or
       cases fileKind f with
       | none => exact isErr_error _
       | some kind =>
+        refine isErr_ite (fun _ => isErr_error _) (fun _ => ?_)
         refine isErr_ite (fun _ => isErr_error _) (fun _ => ?_)
         exact dorTail_wmean_noW_isErr _ _ _ _ _
   · rw [apiReadThenDegrade_none]
@@ -1891,16 +2063,17 @@ theorem dor_bool_andor {f : FileObj} (hf : f.WF) (hk : fileKind f = some (.plain
     rfl
 
 /-- on-read success with `wmean` means the weight file has the same resolutions and covers every
-    coverage pixel processed (H1 is NECESSARY for the on-read path) -/
+    coverage pixel processed IN WHICH THE MAP HAS AN OBSERVED PIXEL (what is left of H1 after the
+    `fix:` commit; it follows from H2, see `dor_weighted`) -/
 theorem dor_weighted_ok_H1 {f w : FileObj} {ordOut : Nat} {pixels : Option (List Nat)} {a : MapObj}
     (h : apiDegradeOnRead f ordOut "wmean" pixels (some w) = .ok a) :
     w.covord = f.covord ∧ w.spord = f.spord ∧
-      ∃ px, dorPixels (fCfg f) f.file pixels = some px ∧
-        ∀ k ∈ px, covered (fCfg f) (readFull w.file) k = true := by
+      ∃ px kind, dorPixels (fCfg f) f.file pixels = some px ∧ fileKind f = some kind ∧
+        ∀ k ∈ px, covered (fCfg f) (readFull w.file) k = true ∨ observed f kind k = false := by
   rw [apiDegradeOnRead_eq] at h
-  obtain ⟨px, kind, hpx, hco, hcw, _, _, _, hw2, _, _⟩ := dorSpec_weighted_inv h
+  obtain ⟨px, kind, hpx, hco, _, _, _, hw2, hk, hw3, _⟩ := dorSpec_weighted_inv h
   have hso := ((dorW2_false_iff f w).1 hw2).1
-  exact ⟨hco, hso, px, hpx, (all_covered_iff hco hso px).1 hcw⟩
+  exact ⟨hco, hso, px, kind, hpx, hk, (dorW3_false_iff hco hso kind px).1 hw3⟩
 
 /-- in-memory success with `wmean` means the two maps read have the same valid pixels (H2 is
     NECESSARY for the reference path) -/
@@ -2073,16 +2246,18 @@ theorem dor_ok_rules {f : FileObj} {ordOut : Nat} {red : String} {pixels : Optio
               · cases h
               · split at h
                 · cases h
-                · rename_i h1 hb _ h4 _ kind hk _
-                  obtain ⟨g1, g2, g3, g4, g5, g6⟩ := dorTail_ok_rules h
-                  refine ⟨kind, hk, by simpa using hb, by omega, by omega, g1, g2, g3, g4, g5, ?_⟩
-                  intro hw
-                  have hu := g6 hw
-                  subst hu
-                  unfold dorW1 at hW
-                  cases wf with
-                  | none => cases hW
-                  | some w => exact ⟨w, rfl⟩
+                · split at h
+                  · cases h
+                  · rename_i h1 hb _ h4 _ kind hk _ _
+                    obtain ⟨g1, g2, g3, g4, g5, g6⟩ := dorTail_ok_rules h
+                    refine ⟨kind, hk, by simpa using hb, by omega, by omega, g1, g2, g3, g4, g5, ?_⟩
+                    intro hw
+                    have hu := g6 hw
+                    subst hu
+                    unfold dorW1 at hW
+                    cases wf with
+                    | none => cases hW
+                    | some w => exact ⟨w, rfl⟩
 
 
 /-- kind of the map the in-memory `_degrade` returns -/
